@@ -5,7 +5,7 @@ logs=sys.argv[1:]
 log={}
 for f in logs:
     for l in open(f):
-        m=re.match(r'(C\d\d-m\d) \[(C\d\d) (\w+) seed=(\d+)\]: (DETECTED|MISSED) rc=\d+ in (\d+)s \| (.*)',l)
+        m=re.match(r'(C\d\d-m\d+) \[(C\d\d) (\w+) seed=(\d+)\]: (DETECTED|MISSED) rc=\d+ in (\d+)s \| (.*)',l)
         if m: log[m.group(1)]=(m.group(5),m.group(2),[x.replace('fingerprint=','') for x in m.group(7).split() if x.startswith('fingerprint=')])
 rows=[];det=0
 for d in sorted(glob.glob('/verif/seeded/C*-m*')):
